@@ -513,7 +513,14 @@ TRet ==
            IF Admissible(refs, r)
            THEN /\ IF ok THEN OpenFilePost(a.d, a.nm, a.mode, r.v.h, now, pos) ELSE UNCHANGED apiVars
                 /\ viol' = Report((IF ok THEN NewHandleTags(r.v.h) ELSE {}) \cup StateChecks(op, e.obs, e.fateq)
-                                  \cup (IF ~ok /\ disk # pre THEN {<<"C07", "Refused", "refused open wrote">>} ELSE {}))
+                                  \cup (IF ~ok /\ disk # pre THEN {<<"C07", "Refused", "refused open wrote">>} ELSE {})
+                                  \* truncating a file makes its clusters available again: of the chain the entry had before the call
+                                  \* at most the first cluster is still in use when the call has returned (whatever size the entry recorded)
+                                  \cup (IF ok /\ ~missing /\ ~lenient /\ ~fltd /\ a.mode \in {"Truncate", "CreateOrTruncate"}
+                                           /\ LET c0 == EntryPos(pre[v], id, a.nm).sl.c
+                                                  ch == IF c0 >= 2 THEN Chain(pre[v], c0).cl ELSE <<>>
+                                              IN \E i \in 2..Len(ch) : ch[i] \notin FreeSet(disk[v])
+                                        THEN {<<"C05", "Reclaimed", "clusters of a truncated file's chain are still in use after the truncating open returned">>} ELSE {}))
                 /\ dur' = IF ok /\ ~missing /\ a.mode \in {"Truncate", "CreateOrTruncate"}
                           THEN [dur EXCEPT ![v] = {x \in @ : ~(x.dir = id /\ x.n = a.nm)}] ELSE dur
            ELSE /\ UNCHANGED apiVars /\ dur' = dur
